@@ -18,6 +18,13 @@ Theorem C02_rd_refines_spec : forall f : formula, rd f = spec_tree f.
 Proof. exact rd_refines_spec. Qed.
 Print Assumptions C02_rd_refines_spec.
 
+(* 1b. The split-based [rd] really is the recursive-descent loop: the token-consuming parser
+       lN := lN+1, many0(pair(opN, cut(lN+1)))  -> Term{lhs, rhs} -> term()'s fold, run over the generated table on a
+       flat sequence, consumes all of it and returns the same tree. *)
+Theorem C02_stream_parser_is_rd : forall (x : tree) (r : oseq), pl lvl nlevels 1 x r = (rd_seq x r, []).
+Proof. exact pl_is_rd. Qed.
+Print Assumptions C02_stream_parser_is_rd.
+
 (* 2. Hence any evaluation function of trees gives the same value on both. *)
 Theorem C02_eval_agree : forall (V : Type) (evalf : tree -> V) (f : formula), evalf (rd f) = evalf (spec_tree f).
 Proof. exact eval_agree. Qed.
